@@ -1062,6 +1062,88 @@ async fn app_scenario(a: &ShardArgs, idx: u64) {
     }
 }
 
+/// part M: the real master channel (the link layer as the master task configures it). Frames addressed to the master are
+/// answered / delivered; frames for the self address 0xFFFC (a master has no self-address feature), for another address
+/// or for a broadcast address get no reply and nothing of theirs reaches a handler.
+async fn master_scenario(a: &ShardArgs, idx: u64) {
+    use crate::verif::rec::Item;
+    use crate::verif::sim::master::*;
+    let mut r = a.rng(&format!("c07m/{idx}"));
+    let mc = MasterCfg::default();
+    let maddr = mc.master_addr;
+    let out_addr = 1024u16;
+    let mut sim = MasterSim::start(mc, &[AssocCfg::quiet(out_addr)]).await;
+    let _ = sim.collect();
+    let _ = sim.assocs[0].2.take();
+    let mut hist: Vec<String> = vec![];
+    let mut useq = r.below(16) as u8;
+    for _ in 0..r.range(3, 8) {
+        let (what, dest): (&str, u16) = match r.below(6) {
+            0 | 1 => ("own", maddr),
+            2 => ("self-address", 0xFFFC),
+            3 => ("other", maddr.wrapping_add(1 + r.below(5) as u16)),
+            4 => ("broadcast", 0xFFFD + r.below(3) as u16),
+            _ => ("self-address", 0xFFFC),
+        };
+        let link = r.bool();
+        useq = (useq + 1) & 15;
+        let bytes = if link {
+            rl::Frame::new(rl::F_REQUEST_LINK_STATUS, dest, out_addr, &[]).encode()
+        } else {
+            // an unsolicited response with one analog event that asks for confirmation, in one segment
+            let frag = ra::B::response(ra::FIR | ra::FIN | ra::UNS | ra::CON | useq, true, 0, 0)
+                .prefixed8(32, 1, &[(3, vec![1, useq, 0, 0, 0])])
+                .done();
+            let mut seg = vec![0xC0 | (r.below(64) as u8)];
+            seg.extend_from_slice(&frag);
+            rl::Frame::data(false, dest, out_addr, &seg).encode()
+        };
+        hist.push(format!("{} for {what} ({dest:#06x})", if link { "REQUEST_LINK_STATUS" } else { "unsolicited response" }));
+        sim.send_bytes(&bytes);
+        settle().await;
+        let rx = sim.collect();
+        let items = sim.assocs[0].2.take();
+        out::eval(1);
+        out::distinct(&format!("M/{what}/{}", if link { "link" } else { "data" }));
+        let replied = rx.iter().any(|x| matches!(x, Rx::Link { .. } | Rx::Fragment { .. }));
+        let delivered = items.iter().any(|i| matches!(i, Item::M(_)));
+        let own = what == "own";
+        let bad = if own { !replied || (!link && !delivered) } else { replied || delivered };
+        if bad {
+            out::violation(
+                P,
+                "C07.master_addressing",
+                &format!("{what}|{}", if link { "link" } else { "data" }),
+                J::obj(vec![
+                    ("why", J::s(format!("frame for {what} address {dest:#06x}: master wrote something = {replied}, handler received objects = {delivered}"))),
+                    ("history", J::arr(hist.iter().cloned())),
+                ]),
+                J::obj(vec![
+                    ("check", J::s("c07")),
+                    ("seed", J::U(a.seed)),
+                    ("shard", J::U(a.shard)),
+                    ("nshards", J::U(a.nshards)),
+                    ("scenario", J::U(idx)),
+                ]),
+            );
+        } else {
+            out::count(if own { "master_own_address_served" } else { "master_foreign_address_ignored" }, 1);
+            if what == "self-address" {
+                out::count("master_self_address_ignored", 1);
+            }
+        }
+    }
+    for p in crate::verif::util::take_panics() {
+        out::violation(
+            P,
+            "C07.panic",
+            &crate::verif::util::norm_location(&p.location),
+            J::s(format!("{} at {} (master)", p.message, p.location)),
+            J::Null,
+        );
+    }
+}
+
 pub fn run_app(a: &ShardArgs) -> Result<(), String> {
     let only: Option<u64> = a
         .replay
@@ -1079,6 +1161,15 @@ pub fn run_app(a: &ShardArgs) -> Result<(), String> {
         }
         out::progress(&format!("B scenario {idx}"));
         run_scenario(app_scenario(a, idx));
+    }
+    if only.is_none() {
+        for idx in 0..a.n(600) {
+            if idx % a.nshards != a.shard {
+                continue;
+            }
+            out::progress(&format!("M scenario {idx}"));
+            run_scenario(master_scenario(a, idx));
+        }
     }
     Ok(())
 }
